@@ -69,12 +69,20 @@ func must(r *s3c.Resp, err error, what string) error {
 	return nil
 }
 
+// AdminT, when set, is where Build sends its admin calls (a gateway started with --admin-port serves them on that
+// listener only). Reset it after Build.
+var AdminT s3c.Transport
+
 // Build creates the fixture through the API (root account) on a started gateway.
 func Build(sb *gw.Sandbox, t s3c.Transport, versioning bool) (*Fixture, error) {
 	fx := &Fixture{SB: sb, T: t, Root: s3c.NewClient(t, gw.DefaultRoot), BktA: "bkt-a", BktB: "bkt-b", BktV: "bkt-v", BktL: "bkt-l", BktO: "bkt-o", HasVer: versioning}
 	c := fx.Root
+	adm := c
+	if AdminT != nil {
+		adm = c.On(AdminT)
+	}
 	for name, cr := range Users {
-		r, err := c.CreateUser(name, cr.Secret, Roles[name], 0, 0)
+		r, err := adm.CreateUser(name, cr.Secret, Roles[name], 0, 0)
 		if err != nil || (r.Status != 201 && r.Status != 200 && r.Code() != "XAdminUserExists") {
 			return nil, fmt.Errorf("fixture: create user %s: %v %v", name, r, err)
 		}
@@ -84,7 +92,7 @@ func Build(sb *gw.Sandbox, t s3c.Transport, versioning bool) (*Fixture, error) {
 		if e := must(r, err, "create "+b); e != nil {
 			return e
 		}
-		r, err = c.Call("PATCH", "/change-bucket-owner", s3c.Q("bucket", b, "owner", owner), nil, nil)
+		r, err = adm.Call("PATCH", "/change-bucket-owner", s3c.Q("bucket", b, "owner", owner), nil, nil)
 		return must(r, err, "chown "+b)
 	}
 	if err := mk(fx.BktA, "alice", nil); err != nil {
